@@ -296,9 +296,15 @@ def defs_in_node(f, n):
 
 def reaching_defs(g, skip_edge=None):
     """IN state per point: frozenset of (varid, def point id); skip_edge(p,q,label) removes edges"""
+    root = g.root_ctx
+
     def transfer(p, st):
         if p.n is None:
             return st
+        if p.n['k'] == 'return' and p.ctx is not root and p.ctx is not None and not p.ctx.lambda_of:
+            # the value an inlined helper returns: a definition of the pseudo variable ('ret', context)
+            rv = ('ret', id(p.ctx))
+            st = frozenset(x for x in st if x[0] != rv) | {(rv, p.id)}
         ds = defs_in_node(p.f, p.n)
         if not ds:
             return st
@@ -426,6 +432,22 @@ def origins(g, rd, f, idx, ctx, depth=0, seen=None):
         return origins(g, rd, f, n['args'][0], ctx, depth + 1, seen)
     if k == 'construct' and n.get('copymove') and len(n.get('args', [])) == 1:
         return origins(g, rd, f, n['args'][0], ctx, depth + 1, seen)
+    if k == 'call':
+        # a helper that was inlined into the graph: the value is what the helper returns
+        for c in getattr(g, 'ctxs', ()):
+            if c.call is n and c.parent is ctx and not c.lambda_of:
+                res = []
+                pt = g.point_of.get((id(ctx), idx))
+                reach = None
+                if pt is not None:
+                    reach = {d for (v, d) in rd.get(pt.id, ()) if v == ('ret', id(c))}
+                for p in g.points:
+                    if p.ctx is c and p.n is not None and p.n['k'] == 'return' and p.n.get('e') is not None and p.n['e'] >= 0:
+                        if reach is not None and reach and p.id not in reach:
+                            continue   # this return does not reach the call site under the (possibly restricted) flow
+                        res.extend(origins(g, rd, c.f, p.n['e'], c, depth + 1, seen))
+                if res:
+                    return res
     if k == 'ref':
         sk = n.get('sk')
         if sk == 'param' and ctx is not None and ctx.call is not None and not ctx.lambda_of:
